@@ -158,7 +158,7 @@ def apply_fault(recs, fault):
         lost = set(atoms[fault[1]:fault[2]])
     elif kind == 'F7':          # only a window of whole residues survives
         lost = set(atoms[:fault[1]]) | set(atoms[fault[2]:])
-    elif kind == 'F10':         # two single records lost
+    elif kind in ('F10', 'F17'):  # two single records lost (F17: in different halves of a multi-conformation file)
         lost = {atoms[fault[1]], atoms[fault[2]]}
     elif kind == 'F11':         # two whole residues lost (records a..b-1 and c..d-1)
         lost = set(atoms[fault[1]:fault[2]]) | set(atoms[fault[3]:fault[4]])
@@ -234,6 +234,18 @@ def name_faults(recs, tier, rng):
         if have & set(sv):
             out.append(('F16', list(sv)))
     return out
+
+
+def cross_conformation_faults(recs, tier, rng):
+    """F17: one record lost in the first half and one in the second half of a
+    multi-conformation file - different atoms missing from different
+    conformations while the record counts stay equal."""
+    n = len(atom_indices(recs))
+    out = set()
+    want = min(tier.get('f17', 0), (n // 2) * (n - n // 2))
+    while len(out) < want:
+        out.add(('F17', rng.randrange(n // 2), rng.randrange(n // 2, n)))
+    return sorted(out)
 
 
 def subset_faults(recs, tier, rng, bounds):
